@@ -45,29 +45,38 @@ def is_stream(proto, read_name):
 
 
 class Spy:
-    """records the outermost calls made on a CodedOutputStream (nested calls of its own methods are not listed)"""
+    """records the outermost calls made on CodedOutputStream objects (nested calls of its own methods are not listed); the
+    methods are wrapped on the CLASS for the duration of one command, so that the header the writer's constructor writes is seen"""
     NAMES = ["write", "write_bytes", "write_bytes_directly", "write_byte_no_check", "write_unsigned_varint",
              "write_signed_varint", "ensure_capacity", "flush"]
 
-    def __init__(self, stream):
+    def __init__(self, cls):
+        self.cls = cls
         self.depth = 0
         self.log = []
+        self.orig = {}
         for name in Spy.NAMES:
-            self._wrap(stream, name)
+            self._wrap(name)
 
-    def _wrap(self, stream, name):
-        orig = getattr(stream, name)
+    def _wrap(self, name):
+        orig = getattr(self.cls, name)
+        self.orig[name] = orig
+        spy = self
 
-        def f(*a, **k):
-            top = self.depth == 0
-            self.depth += 1
+        def f(this, *a, **k):
+            top = spy.depth == 0
+            spy.depth += 1
             try:
-                return orig(*a, **k)
+                return orig(this, *a, **k)
             finally:
-                self.depth -= 1
+                spy.depth -= 1
                 if top:
-                    self.log.append(self._render(name, a))
-        setattr(stream, name, f)
+                    spy.log.append(spy._render(name, a))
+        setattr(self.cls, name, f)
+
+    def restore(self):
+        for name, orig in self.orig.items():
+            setattr(self.cls, name, orig)
 
     @staticmethod
     def _render(name, a):
@@ -88,6 +97,55 @@ class Spy:
         return ["F"]
 
 
+class RSpy:
+    """records the outermost calls made on CodedInputStream objects together with what they returned; the methods are wrapped
+    on the CLASS for the duration of one command, so that the reads of the reader's constructor (the header) are seen too"""
+    NAMES = ["read", "read_byte", "read_unsigned_varint", "read_signed_varint", "read_view", "read_bytearray"]
+
+    def __init__(self, cls):
+        self.cls = cls
+        self.depth = 0
+        self.log = []
+        self.orig = {}
+        for name in RSpy.NAMES:
+            self._wrap(name)
+
+    def _wrap(self, name):
+        orig = getattr(self.cls, name)
+        self.orig[name] = orig
+        spy = self
+
+        def f(this, *a, **k):
+            top = spy.depth == 0
+            spy.depth += 1
+            try:
+                res = orig(this, *a, **k)
+            finally:
+                spy.depth -= 1
+            if top:
+                spy.log.append(spy._render(name, a, res))
+            return res
+        setattr(self.cls, name, f)
+
+    def restore(self):
+        for name, orig in self.orig.items():
+            setattr(self.cls, name, orig)
+
+    @staticmethod
+    def _render(name, a, res):
+        if name == "read":
+            st = a[0]
+            return ["f", st.size, int.from_bytes(st.pack(*res), "little")]
+        if name == "read_byte":
+            return ["b", int(res)]
+        if name == "read_unsigned_varint":
+            return ["v", int(res)]
+        if name == "read_signed_varint":
+            z = int(res)
+            return ["v", (z << 1) ^ (z >> 63)]
+        return ["r", int(a[0]), bytes(res).hex()]
+
+
 for line in sys.stdin:
     line = line.strip()
     if not line:
@@ -96,14 +154,16 @@ for line in sys.stdin:
     proto = c["proto"]
     out = io.BytesIO() if c["fout"] == "binary" else io.StringIO()
     res = {}
+    spy = rspy = None
     signal.setitimer(signal.ITIMER_REAL, CMD_SECONDS[0])
     try:
         src = io.BytesIO(bytes.fromhex(c["data"])) if c["fin"] == "binary" else io.StringIO(c["data"])
         R = getattr(mod, ("Binary" if c["fin"] == "binary" else "NDJson") + proto + "Reader")
         W = getattr(mod, ("Binary" if c["fout"] == "binary" else "NDJson") + proto + "Writer")
+        rspy = RSpy(sys.modules[mod.__name__ + "._binary"].CodedInputStream) if c.get("trace") and c["fin"] == "binary" else None
+        spy = Spy(sys.modules[mod.__name__ + "._binary"].CodedOutputStream) if c.get("trace") and c["fout"] == "binary" else None
         r = R(src)
         w = W(out)
-        spy = Spy(w._stream) if c.get("trace") and c["fout"] == "binary" else None
         mode = c.get("mode", "copy")
         if mode == "copy":
             r.copy_to(w)
@@ -161,11 +221,13 @@ for line in sys.stdin:
         except Exception:  # noqa: BLE001
             pass
     signal.setitimer(signal.ITIMER_REAL, 0)
+    if rspy is not None:
+        rspy.restore()
+    if spy is not None:
+        spy.restore()
     if c.get("trace") and c["fout"] == "binary":
-        try:
-            res["trace"] = spy.log
-        except NameError:
-            res["trace"] = None
+        res["trace"] = spy.log if spy is not None else None
+        res["rtrace"] = rspy.log if rspy is not None else None
     res["out"] = out.getvalue().hex() if c["fout"] == "binary" else out.getvalue()
     print(json.dumps(res))
     sys.stdout.flush()
